@@ -268,6 +268,7 @@ NONREDUCING = {"ep_mul_basic", "ep_mul_dig"}
 def strat_mul(env, cfg):
     c = ecctx.job_curve(env, cfg)
     bn_bits = 1024
+    others = [o.cid for o in ecctx.discover(env, cfg)["curves"] if o.cid != c.cid]
 
     @st.composite
     def s(draw):
@@ -277,8 +278,11 @@ def strat_mul(env, cfg):
         if op == "ep_mul_dig":
             k = draw(ints.digit(c.F.W))
         kinds = ["basic"]
+        # now and then another curve is selected right before this one (flags / tables / lattice constants left
+        # behind by the previous selection must not leak into the multiplication)
+        prev = draw(st.sampled_from(others)) if others and draw(st.integers(0, 24)) == 0 else None
         return dict(cid=c.cid, op=op, P=P, k=k, rp=draw(rep_spec(c, kinds)), alias=draw(st.sampled_from([0, 0, 1])),
-                    poison=draw(st.integers(0, 255)), seed=draw(st.binary(min_size=8, max_size=8)))
+                    poison=draw(st.integers(0, 255)), seed=draw(st.binary(min_size=8, max_size=8)), prev=prev)
     return s()
 
 
@@ -325,7 +329,7 @@ def run_mul(env, cfg, case):
         p.dump(sr)
         return sr, ins
     for pz in (case["poison"], case["poison"] ^ 0xFF):
-        res, (sr, ins) = ecctx.run(env, cfg, c.cid, build, pz, seed=case["seed"])
+        res, (sr, ins) = ecctx.run(env, cfg, c.cid, build, pz, seed=case["seed"], prev=case.get("prev"))
         call = res.calls[0]
         chk_call(call, what)
         chk_point(c, res.dumps[sr], want, what, need_norm=True)
@@ -333,7 +337,7 @@ def run_mul(env, cfg, case):
             raise Violation("%s modified its input" % what)
     n = c.n
     nt = abs(k) not in (0, 1) and (abs(k) >= n or k < 0 or (k % n).bit_length() > 64) and P is not None
-    return nt, ["op:" + op, "cid:%d" % c.cid] + mul_labels(c, k)
+    return nt, ["op:" + op, "cid:%d" % c.cid] + mul_labels(c, k) + (["after-other-curve"] if case.get("prev") else [])
 
 
 # ------------------------------------------------------------------------------ fixed-base multiplication
